@@ -449,7 +449,7 @@ def python_snippet(c):
         return t % ((name,) * t.count('%s'))
     lines.append('sem = ' + expr(cfg.get('layout', 'C'), 'sem'))
     lines.append('act = ' + expr(cfg.get('layout_act', cfg.get('layout', 'C')), 'act'))
-    lines.append('print(correlation.correlation(sem, act, allow_nan=%r))' % bool(c['allow_nan']))
+    lines.append('print(correlation.correlation(sem, act, allow_nan=%r%s))' % (bool(c['allow_nan']), ', verbose=True' if cfg.get('verbose') else ''))
     lines.append('print(correlation._reference_correlation(sem, act))')
     if cfg.get('via', 'public') != 'public':
         lines += [
@@ -487,6 +487,11 @@ def report_failure(rep, pool, driver, c, d):
 
 def run(rep, pool, driver, tier):
     cs = cases(tier)
+    # X1: `verbose=True` for about a quarter of the calls of the public function (own random stream: the
+    # cases stay the same); the model knows no verbose flag, so the result must be the one of verbose=False
+    rv = rng('C18/verbose')
+    for c in cs:
+        c['configs'] = [dict(g, verbose=True) if rv.random() < 0.25 else g for g in c['configs']]
     impls = pool.map([impl_task(c) for c in cs])
     models = driver.ask([model_request(c) for c in cs])
     failures = []
@@ -503,6 +508,7 @@ def run(rep, pool, driver, tier):
         rep.count('n_events:%s' % ('1' if n_ev == 1 else '2-14' if n_ev <= 14 else '15-60'))
         for g in c['configs']:
             rep.count('config_via:' + g.get('via', 'public'))
+            rep.count('config_verbose:%s' % bool(g.get('verbose')))
             rep.count('config_layout:' + g.get('layout', 'C') + g.get('layout_act', g.get('layout', 'C')))
             if 'n_jobs' in g:
                 rep.count('n_jobs:%s' % ('1' if g['n_jobs'] == 1 else '2-8' if g['n_jobs'] <= 8 else '9-32'))
